@@ -27,6 +27,7 @@ case_strategy = st.fixed_dictionaries(
     {
         "prog": progs.program_strategy(ops=ALL_OPS),
         "schedules": st.lists(progs.schedule_strategy.filter(lambda s: any(s)), min_size=3, max_size=3),
+        "durations": st.lists(progs.durations_strategy, min_size=4, max_size=4),
     }
 )
 
@@ -45,8 +46,8 @@ async def check(case, rec):
     from vf.engine.runprog import classify, compare_with_reference, run_program
 
     runs = []
-    for sched in [[], *case["schedules"]]:
-        r = await run_program(case["prog"], sched)
+    for k, sched in enumerate([[], *case["schedules"]]):
+        r = await run_program(case["prog"], sched, durations=case.get("durations", [[]] * 4)[k])
         if r.outcome != "returned":
             raise Violation("C05:run-failed", f"schedule {sched}: {r.outcome} {r.exception!r}; blocks={r.blocks}")
         compare_with_reference(r, "C05")
